@@ -1107,6 +1107,51 @@ pub fn run_c05(run: &mut Run, replay: Option<&std::path::Path>) -> anyhow::Resul
         mutual_dial_case(run, seed, case as u64)?;
     }
     stale_exit_race(run, if run.quick() { 2 } else { 8 })?;
+    for case in 0..(if run.quick() { 4 } else { 60 }) {
+        background_dial_meets_inbound(run, case)?;
+    }
+    Ok(())
+}
+
+/// A mutual dial in which one side's dial is a BACKGROUND dial (High-affinity known peer) that is still in
+/// flight -- its first address is a black hole -- when the peer's own connection is registered.  The pair
+/// must end up connected once, with RPCs in both directions, and stay so over the following checks.
+fn background_dial_meets_inbound(run: &mut Run, case: u64) -> anyhow::Result<()> {
+    use anemo::types::{PeerAffinity, PeerInfo};
+    let seed = run.seed ^ 0x5b6d ^ (case << 16);
+    run.mark(&format!("scenario background_dial_meets_inbound case {case} seed {} (re-run with ./check C05 --seed <seed>)", run.seed));
+    let rt = paused_rt();
+    let res: anyhow::Result<serde_json::Value> = rt.block_on(async move {
+        let fabric = Fabric::new(seed);
+        let mut ca = config_idle(60_000);
+        ca.connectivity_check_interval_ms = Some(1_000);
+        ca.connect_timeout_ms = Some(5_000 + 1_000 * (case % 3));
+        let a = start_node(&fabric, seed, 1, ca)?;
+        let b = start_node(&fabric, seed, 2, config_idle(60_000))?;
+        let mut la = NodeLog::new(&a.net);
+        let mut lb = NodeLog::new(&b.net);
+        // B's address list at A: a black hole first (the dial to it stays in flight), B's real address second
+        let addrs: Vec<anemo::types::Address> = if case % 2 == 0 { vec![Fabric::addr(250).into(), b.addr.into()] } else { vec![Fabric::addr(250).into()] };
+        a.net.known_peers().insert(PeerInfo { peer_id: b.id, affinity: PeerAffinity::High, address: addrs });
+        tokio::time::sleep(Duration::from_millis(2_300)).await; // the first check has started the dial
+        let dialled = b.net.connect(a.addr).await.is_ok();
+        tokio::time::sleep(Duration::from_millis(12_000)).await; // the background dial fails meanwhile; several checks pass
+        la.pump();
+        lb.pump();
+        let mk = |id: &str| Request::new(Bytes::from_static(b"x")).with_header("x-id", id);
+        let r1 = tokio::time::timeout(Duration::from_secs(5), a.net.rpc(b.id, mk("ab"))).await.map(|r| r.is_ok()).unwrap_or(false);
+        let r2 = tokio::time::timeout(Duration::from_secs(5), b.net.rpc(a.id, mk("ba"))).await.map(|r| r.is_ok()).unwrap_or(false);
+        Ok(json!({"b_dial_ok": dialled, "a_closed": a.net.is_closed(), "a_lists_b": a.net.peers().iter().filter(|p| **p == b.id).count(), "b_lists_a": b.net.peers().iter().filter(|p| **p == a.id).count(),
+                  "rpc_a_to_b": r1, "rpc_b_to_a": r2, "events_a": la.events.iter().map(ev_str).collect::<Vec<_>>(), "events_b": lb.events.iter().map(ev_str).collect::<Vec<_>>()}))
+    });
+    drop(rt);
+    let o = res?;
+    let ok = o["b_dial_ok"] == json!(true) && o["a_closed"] == json!(false) && o["a_lists_b"] == json!(1) && o["b_lists_a"] == json!(1) && o["rpc_a_to_b"] == json!(true) && o["rpc_b_to_a"] == json!(true);
+    run.eval(&format!("bg-dial-meets-inbound {case}"), true);
+    run.count("bg-dial-meets-inbound", if ok { "converged" } else { "broken" });
+    if !ok {
+        run.oracle_fail(json!({"kind": "a background dial in flight while the peer's own connection was registered left the pair disconnected (or the network down)", "observed": o, "seed": run.seed, "case": case}));
+    }
     Ok(())
 }
 
